@@ -22,6 +22,14 @@ def scenarios(tier):
     L.append((SC.scn("alias-redo-j2", w["one"], ["redo --no-log -j2 x ./x"], visible=SC.CORE), 0 if q else 1))
     # (4) two sub-redos that want each other's first target second
     L.append((SC.scn("cross-j2", w["cross"], ["redo --no-log -j2 p q"], visible=SC.TOKENS + ["lock-try"]), 1 if q else 2))
+    # two children of one redo exit between two of its wake-ups while a third target of its list is locked by another
+    # invocation (whose script goes on for three polling intervals): everything finished must be recorded before it waits
+    from ..worlds import S as _S, World as _W
+    tw = _W("two-exits-then-locked", {"s": ["0", "1"]},
+            {"x1.do": [_S(deps=["s"])], "x2.do": [_S(deps=["s"], out="file")], "y.do": [_S(deps=["s"], sync=(("mid", "sleep", "3"),))]},
+            ["x1", "x2", "y"], ["x1", "x2", "y"])
+    L.append((SC.scn("two-exits-then-locked-j3", tw, ["redo --no-log y", "redo --no-log -j3 x1 x2 y"],
+                     visible=SC.TOKENS + ["lock-try"]), 1 if q else 2))
     L.append((SC.scn("cross-src-j2", w["cross-src"], ["redo --no-log -j2 p q"], visible=SC.TOKENS + ["lock-try"]), 1 if q else 2))
     # (5) all-success graphs at -j2 / -j3
     L.append((SC.scn("diamond-j2", w["diamond"], ["redo --no-log -j2 top"], visible=SC.TOKENS), 1 if q else 2))
@@ -49,8 +57,46 @@ def scenarios(tier):
     return L
 
 
-def oracle(scn, res):
+def holds_unrecorded_while_waiting(scn, res):
+    """Invariant behind "never waits forever": a redo process that parks in a lock wait holds no target lock whose script
+    has already ended without its result being recorded (such a lock is only released by that very process, so two
+    processes in this state that want each other's target wait for ever).  Judged on the scheduler's event order."""
     out = []
+    fid_name = {r[3]: r[0] for r in (res.get("dbrows") or [])}
+    timeline = [(st, 0, lid, kind, detail) for st, lid, kind, detail in res["events"]]
+    timeline += [(s["i"], 1, s["lid"], s["kind"], s["detail"]) for s in res["steps"]]
+    timeline.sort(key=lambda x: (x[0], x[1]))
+    held = {}        # lid -> {fid: index in timeline of acquisition}
+    ended = {}       # target name -> [(index, lid of the script's shell)]
+    recorded = {}    # (lid, fid) -> [index]
+    for idx, (st, _o, lid, kind, detail) in enumerate(timeline):
+        k = kind.lstrip("~")
+        if k == "lock-acquired":
+            fid = int(detail.split("fid=")[1].split()[0])
+            held.setdefault(lid, {})[fid] = idx
+        elif k == "unlock":
+            fid = int(detail.split("fid=")[1].split()[0])
+            held.get(lid, {}).pop(fid, None)
+        elif k == "script" and detail.startswith("end "):
+            ended.setdefault(detail[4:], []).append((idx, lid))
+        elif k == "record-begin":
+            fid = int(detail.split("fid=")[1].split()[0])
+            recorded.setdefault((lid, fid), []).append(idx)
+        elif k == "lock-wait":
+            want = int(detail.split("fid=")[1].split()[0])
+            for fid, since in list(held.get(lid, {}).items()):
+                if fid == want or fid >= 0x10000000:
+                    continue
+                name = fid_name.get(fid)
+                ends = [i for i, sl in ended.get(name, []) if i > since and sl.startswith(lid + ".")]
+                if ends and not any(i > ends[-1] for i in recorded.get((lid, fid), [])):
+                    out.append(({"kind": "waits-for-a-lock-while-holding-an-unrecorded-finished-job", "scenario": scn["name"],
+                                 "holds": name}, {"process": lid, "wants_fid": want, "at_step": st}))
+    return out
+
+
+def oracle(scn, res):
+    out = holds_unrecorded_while_waiting(scn, res) if res["verdict"] in ("done", "deadlock") else []
     if res["verdict"] == "done" and scn["name"] not in ("failfan-j2",):
         # every script in these scenarios succeeds: every invocation must exit 0
         for n, rc in res["roots"].items():
